@@ -163,6 +163,33 @@ def report(ctx, results):
                                     "full": "chk_full"}[name])))
 
 
+def translator_obligations(ctx):
+  """Regenerate the translation of _ogd_update_fn / _diag_adagrad_update_fn from /repo and re-prove it
+  equal to C16.Ref (linked to the model steps by c16_*_update_is_model_step)."""
+  from tools import targets
+  text, errors = targets.generate_c16(common.REPO)
+  ctx.cov["obligations"] += 3
+  if errors:
+    ctx.proof_failure("translate oco _ogd_update_fn/_diag_adagrad_update_fn", json.dumps(errors))
+    return
+  ok, out = ctx.gen_obligation("Gen", text)
+  if not ok:
+    ctx.proof_failure("compile gen/C16/Gen.v (translation of the OCO update functions)", out[-2000:])
+    return
+  ctx.cov["discharged"] += 1
+  for fn in (targets.OGD_UPDATE, targets.ADA_UPDATE):
+    names = " ".join(n for n, _ in fn.params)
+    ob = ("From Precond Require Import Base.PyLib Base.QMat Base.PyFloat.\nFrom Precond Require C16.Ref.\n"
+          "From PrecondGen Require C16.Gen.\n"
+          "Lemma gen_eq_%s : forall %s, C16.Gen.%s %s = C16.Ref.%s %s.\nProof. intros. reflexivity. Qed.\n"
+          % (fn.name, names, fn.name, names, fn.name, names))
+    ok, out = ctx.gen_obligation("GenEq_" + fn.name, ob)
+    if ok:
+      ctx.cov["discharged"] += 1
+    else:
+      ctx.proof_failure("GenEq_%s (Gen = Ref)" % fn.name, out[-2000:])
+
+
 def run(ctx):
   ctx.cov["rule"] = (
       "gradient sequences (normal / integer / low-rank / with zero steps / scale-varying) of length "
@@ -177,6 +204,7 @@ def run(ctx):
       "'rank below sketch size => rho = 0' is a property of the SVD: monitored (rho <= 1e-7 scale), "
       "cases where it does not hold are counted and excluded from the lossless clause"]
   ctx.proofs(["Properties/C16.v"], extra_targets=["theories/C16/Check.vo"], dirs=["C09"])
+  translator_obligations(ctx)
   cases = gen_cases(ctx)
   ctx.log("%d cases" % len(cases))
   results = evaluate(ctx, run_impl(cases), "c16")
